@@ -1795,4 +1795,497 @@ theorem matVec_massMatrix (ps : List Int) (cinr : List (Inertia ℝ)) (cdof : Li
 
 end massrep
 
+/-! ### … and its equivariance -/
+section massequiv
+
+theorem mrsum_shift (n : Nat) (f : Nat → Motion ℝ) :
+    mrsum (n + 1) f = f 0 + mrsum n (fun i => f (i + 1)) := by
+  induction n with
+  | zero => simp only [mrsum, zero_madd, madd_zero]
+  | succ n ih =>
+    show mrsum (n + 1) f + f (n + 1) = f 0 + (mrsum n (fun i => f (i + 1)) + f (n + 1))
+    rw [ih, madd_assoc]
+
+theorem mrsum_eq_sumM : ∀ (rows : List (Motion ℝ)) (xs : List ℝ), xs.length = rows.length →
+    mrsum rows.length (fun r => mulr (rows.getD r Motion.zero) (xs.getD r 0))
+      = sumM (List.zipWith mulr rows xs)
+  | [], _, _ => rfl
+  | c :: cs, [], h => by simp at h
+  | c :: cs, x :: xs, h => by
+    simp only [List.length_cons, mrsum_shift, List.getD_cons_zero, List.getD_cons_succ,
+      List.zipWith_cons_cons, sumM]
+    rw [mrsum_eq_sumM cs xs (by simpa using h)]
+
+theorem frsum_congr {n : Nat} {f f' : Nat → Force ℝ} (h : ∀ a, a < n → f a = f' a) :
+    frsum n f = frsum n f' := by
+  induction n with
+  | zero => rfl
+  | succ n ih =>
+    simp only [frsum]
+    rw [ih (fun a ha => h a (Nat.lt_succ_of_lt ha)), h n (Nat.lt_succ_self n)]
+
+theorem irel_dI (g : Tf ℝ) : IRel g (dI : Inertia ℝ) dI := by
+  intro m
+  simp only [Inertia.mul, dI, Tf.id, M3.zero, M3.mulVec, V3.dot, V3.zero, V3.cross, V3.smul, rotF,
+    C05L.rotF, rotM, V3.add_def, V3.sub_def, rotate, Q4.vec]
+  congr 1 <;> congr 1 <;> ring
+
+theorem forall₂_getD {β γ : Type} {Rel : β → γ → Prop} {l : List β} {l' : List γ} {d : β} {d' : γ}
+    (h : List.Forall₂ Rel l l') (hd : Rel d d') (k : Nat) : Rel (l.getD k d) (l'.getD k d') := by
+  rw [List.getD_eq_getElem?_getD, List.getD_eq_getElem?_getD]
+  have hopt := getElem?_optRel h k
+  revert hopt
+  generalize l[k]? = o
+  generalize l'[k]? = o'
+  intro hopt
+  cases hopt with
+  | none => exact hd
+  | some hab => exact hab
+
+/-- isotropic per-dof scalars (armature, damping) of one link -/
+def IsoRow (t : LinkType) (cs : List ℝ) : Prop :=
+  t = .free → ∃ c0 c1 c2 c3 c4 c5, cs = [c0, c1, c2, c3, c4, c5] ∧ c0 = c1 ∧ c1 = c2
+
+theorem pRow_scale (g : Tf ℝ) (t : LinkType) (cs xs : List ℝ) (hiso : IsoRow t cs)
+    (hlen : cs.length = xs.length) :
+    List.zipWith (fun c x => c * x) cs (pRow g t xs) = pRow g t (List.zipWith (fun c x => c * x) cs xs) := by
+  by_cases hf : t = .free
+  · obtain ⟨c0, c1, c2, c3, c4, c5, hcs, e1, e2⟩ := hiso hf
+    have h6 : xs.length = 6 := by rw [← hlen, hcs]; rfl
+    obtain ⟨x0, x1, x2, x3, x4, x5, hxs⟩ := length6 _ h6
+    subst hf hcs hxs e1 e2
+    simp only [pRow_free6, List.zipWith_cons_cons, List.zipWith_nil_right, rotate, V3.dot, V3.cross, Q4.vec]
+    refine List.cons_eq_cons.mpr ⟨by ring, List.cons_eq_cons.mpr ⟨by ring, List.cons_eq_cons.mpr ⟨by ring, rfl⟩⟩⟩
+  · rw [pRow_nonfree g hf, pRow_nonfree g hf]
+
+/-- a row of `mass.matrix · y` in list form -/
+theorem massRow_list (rows : List (Motion ℝ)) (as xs : List ℝ) (Φ : Force ℝ)
+    (h1 : as.length = rows.length) (h2 : xs.length = rows.length) :
+    ((List.range rows.length).map fun r =>
+        Motion.dotF (rows.getD r Motion.zero) Φ + as.getD r 0 * xs.getD r 0)
+      = List.zipWith (fun a b => 1 * a + 1 * b) (rows.map fun c => Motion.dotF c Φ)
+          (List.zipWith (fun c x => c * x) as xs) := by
+  apply List.ext_getElem
+  · simp [h1, h2]
+  · intro i hi1 hi2
+    have hi : i < rows.length := by simpa using hi1
+    simp only [List.getElem_map, List.getElem_range, List.getElem_zipWith]
+    rw [← getElem_eq_getD rows Motion.zero i hi, ← getElem_eq_getD as 0 i (by omega),
+      ← getElem_eq_getD xs 0 i (by omega)]
+    ring
+
+variable (g : Tf ℝ) (hg : g.rot.IsUnit) (ts : List LinkType) (ps : List Int)
+  (cinr cinr' : List (Inertia ℝ)) (cdof cdof' : List (List (Motion ℝ))) (arm N : List (List ℝ))
+
+/-- hypotheses of the mass-matrix equivariance -/
+structure MassOK : Prop where
+  hcinr : List.Forall₂ (IRel g) cinr cinr'
+  hsym : ∀ x ∈ cinr, SymmI x
+  hsym' : ∀ x ∈ cinr', SymmI x
+  hlen : cdof.length = ts.length
+  hlen' : cdof'.length = ts.length
+  hrows : ∀ i (h : i < ts.length) (h1 : i < cdof.length) (h2 : i < cdof'.length),
+    RowsRel g ts[i] cdof[i] cdof'[i]
+  hchunk : List.Forall₂ (fun (t : LinkType) (r : List (Motion ℝ)) => r.length = t.qdWidth) ts cdof
+  harm : List.Forall₂ (fun (t : LinkType) (a : List ℝ) => a.length = t.qdWidth ∧ IsoRow t a) ts arm
+
+variable (h : MassOK g ts cinr cinr' cdof cdof' arm) (hN : ChunksQd ts N)
+include hg h hN
+
+theorem rowsRel_length (i : Nat) (hi : i < ts.length) :
+    (cdof'[i]'(by rw [h.hlen']; exact hi)).length = (cdof[i]'(by rw [h.hlen]; exact hi)).length := by
+  have hr := h.hrows i hi (by rw [h.hlen]; exact hi) (by rw [h.hlen']; exact hi)
+  by_cases hf : ts[i] = .free
+  · obtain ⟨a0, a1, a2, e1, e2⟩ := hr.1 hf
+    rw [e1, e2]; rfl
+  · rw [hr.2 hf, List.length_map]
+
+theorem wAt_eq (l : Nat) : wAt cdof' l = wAt cdof l := by
+  unfold wAt
+  by_cases hl : l < ts.length
+  · rw [← getElem_eq_getD cdof' [] l (by rw [h.hlen']; exact hl),
+      ← getElem_eq_getD cdof [] l (by rw [h.hlen]; exact hl)]
+    exact rowsRel_length g hg ts cinr cinr' cdof cdof' arm N h hN l hl
+  · rw [List.getD_eq_getElem?_getD, List.getD_eq_getElem?_getD,
+      List.getElem?_eq_none (by rw [h.hlen']; omega), List.getElem?_eq_none (by rw [h.hlen]; omega)]
+
+theorem N_row (l : Nat) (hl : l < ts.length) :
+    ∃ (h1 : l < N.length) (h2 : l < cdof.length), N[l].length = cdof[l].length
+      ∧ (pNest g ts N).getD l [] = pRow g ts[l] N[l] ∧ N.getD l [] = N[l] := by
+  have hNl : N.length = ts.length := (List.Forall₂.length_eq hN).symm
+  have h1 : l < N.length := by rw [hNl]; exact hl
+  have h2 : l < cdof.length := by rw [h.hlen]; exact hl
+  refine ⟨h1, h2, ?_, ?_, (getElem_eq_getD N [] l h1).symm⟩
+  · rw [forall₂_getElem hN l hl h1, forall₂_getElem h.hchunk l hl h2]
+  · have hp : l < (pNest g ts N).length := by rw [pNest_length, hNl, min_self]; exact hl
+    rw [← getElem_eq_getD _ [] l hp, pNest_getElem]
+
+theorem Ulink_equiv (a : Nat) (ha : a < ts.length) :
+    Ulink cdof' (fun a s => ((pNest g ts N).getD a []).getD s 0) a
+      = rotM g (Ulink cdof (fun a s => (N.getD a []).getD s 0) a) := by
+  obtain ⟨h1, h2, hlenN, hp, hn⟩ := N_row g hg ts cinr cinr' cdof cdof' arm N h hN a ha
+  have h2' : a < cdof'.length := by rw [h.hlen']; exact ha
+  have hw := rowsRel_length g hg ts cinr cinr' cdof cdof' arm N h hN a ha
+  unfold Ulink
+  simp only [hp, hn]
+  unfold wAt cAt
+  rw [← getElem_eq_getD cdof' [] a h2', ← getElem_eq_getD cdof [] a h2]
+  rw [mrsum_eq_sumM cdof'[a] (pRow g ts[a] N[a]) (by rw [pRow_length, hlenN, hw]),
+    mrsum_eq_sumM cdof[a] N[a] hlenN]
+  apply sumM_rows_equiv g ts[a] _ _ _ (h.hrows a ha h2 h2')
+  intro hf
+  rw [forall₂_getElem hN a ha h1, hf]; rfl
+
+theorem crb_irel (k : Nat) : IRel g ((crb ps cinr).getD k dI) ((crb ps cinr').getD k dI) := by
+  apply forall₂_getD _ (irel_dI g)
+  unfold crb
+  exact revAcc_forall₂ _ _ _ (fun x y x' y' hx hy => IRel.add hx hy) ps cinr cinr' h.hcinr
+
+theorem Phi_equiv (l : Nat) :
+    Phi ps (crb ps cinr') cdof' (fun a s => ((pNest g ts N).getD a []).getD s 0) ts.length l
+      = rotF g (Phi ps (crb ps cinr) cdof (fun a s => (N.getD a []).getD s 0) ts.length l) := by
+  unfold Phi
+  rw [rotF_frsum]
+  apply frsum_congr
+  intro a ha
+  unfold Fla
+  rw [Ulink_equiv g hg ts cinr cinr' cdof cdof' arm N h hN a ha]
+  by_cases hrel : relB ps l a = true
+  · rw [if_pos hrel, if_pos hrel]
+    exact crb_irel g hg ts ps cinr cinr' cdof cdof' arm N h hN _ _
+  · rw [if_neg hrel, if_neg hrel, rotF_fzero]
+
+/-- **`mass.matrix · y` is equivariant**: `M' (P y) = P (M y)` -/
+theorem massMatrix_equiv :
+    matVec (massMatrix ps cinr' cdof' arm) (pFlat g ts N.flatten)
+      = pFlat g ts (matVec (massMatrix ps cinr cdof arm) N.flatten) := by
+  have hNl : N.length = ts.length := (List.Forall₂.length_eq hN).symm
+  have hN' : ChunksQd ts (pNest g ts N) := by
+    apply forall₂_of_getElem (by rw [pNest_length, hNl, min_self])
+    intro i h1 h2
+    rw [pNest_getElem, pRow_length]
+    exact forall₂_getElem hN i h1 (by rw [hNl]; exact h1)
+  have hw : ∀ l, l < N.length → (N.getD l []).length = wAt cdof l := by
+    intro l hl
+    obtain ⟨h1, h2, e, _, hn⟩ := N_row g hg ts cinr cinr' cdof cdof' arm N h hN l (by rw [← hNl]; exact hl)
+    rw [hn, e]; unfold wAt; rw [← getElem_eq_getD cdof [] l h2]
+  have hw' : ∀ l, l < (pNest g ts N).length → ((pNest g ts N).getD l []).length = wAt cdof' l := by
+    intro l hl
+    have hl' : l < ts.length := by rw [pNest_length, hNl, min_self] at hl; exact hl
+    obtain ⟨h1, h2, e, hp, _⟩ := N_row g hg ts cinr cinr' cdof cdof' arm N h hN l hl'
+    rw [hp, pRow_length, e, wAt_eq g hg ts cinr cinr' cdof cdof' arm N h hN l]
+    unfold wAt; rw [← getElem_eq_getD cdof [] l h2]
+  rw [pFlat_flatten g hN,
+    matVec_massMatrix ps cinr' cdof' arm (pNest g ts N) h.hsym'
+      (by rw [pNest_length, hNl, min_self, h.hlen']) hw',
+    matVec_massMatrix ps cinr cdof arm N h.hsym (by rw [hNl, h.hlen]) hw]
+  -- the nested rows of the two products
+  have hrowsEq : ((List.range cdof'.length).map fun l => (List.range (wAt cdof' l)).map fun r =>
+        Motion.dotF (cAt cdof' l r)
+            (Phi ps (crb ps cinr') cdof' (fun a s => ((pNest g ts N).getD a []).getD s 0) cdof'.length l)
+          + armAt arm l r * ((pNest g ts N).getD l []).getD r 0)
+      = pNest g ts ((List.range cdof.length).map fun l => (List.range (wAt cdof l)).map fun r =>
+        Motion.dotF (cAt cdof l r)
+            (Phi ps (crb ps cinr) cdof (fun a s => (N.getD a []).getD s 0) cdof.length l)
+          + armAt arm l r * (N.getD l []).getD r 0) := by
+    apply List.ext_getElem
+    · rw [pNest_length]; simp [h.hlen, h.hlen']
+    · intro l h1 h2
+      have hl : l < ts.length := by simpa [h.hlen'] using h1
+      obtain ⟨hn1, hc1, e, hp, hn⟩ := N_row g hg ts cinr cinr' cdof cdof' arm N h hN l hl
+      have hc1' : l < cdof'.length := by rw [h.hlen']; exact hl
+      have hal : l < arm.length := by rw [← List.Forall₂.length_eq h.harm]; exact hl
+      obtain ⟨harmlen, harmiso⟩ := forall₂_getElem h.harm l hl hal
+      have hcl := forall₂_getElem h.hchunk l hl hc1
+      have hw1 := rowsRel_length g hg ts cinr cinr' cdof cdof' arm N h hN l hl
+      rw [pNest_getElem]
+      simp only [List.getElem_map, List.getElem_range, h.hlen, h.hlen']
+      rw [Phi_equiv g hg ts ps cinr cinr' cdof cdof' arm N h hN l, hp, hn]
+      unfold wAt cAt armAt
+      rw [← getElem_eq_getD cdof' [] l hc1', ← getElem_eq_getD cdof [] l hc1,
+        ← getElem_eq_getD arm [] l hal]
+      rw [massRow_list cdof'[l] arm[l] (pRow g ts[l] N[l]) _ (by rw [harmlen, hw1, hcl])
+          (by rw [pRow_length, e, hw1]),
+        massRow_list cdof[l] arm[l] N[l] _ (by rw [harmlen, hcl]) e,
+        pRow_lin g ts[l] 1 1 _ _ (by simp [harmlen, hcl, e]),
+        proj_rows_equiv g hg ts[l] _ _ _ (h.hrows l hl hc1 hc1'),
+        pRow_scale g ts[l] arm[l] N[l] harmiso (by rw [harmlen, e, hcl])]
+  rw [hrowsEq]
+  refine (pFlat_flatten g ?_).symm
+  apply forall₂_of_getElem (by simp [h.hlen])
+  intro l h1 h2
+  simp only [List.getElem_map, List.getElem_range, List.length_map, List.length_range]
+  unfold wAt
+  rw [← getElem_eq_getD cdof [] l (by rw [h.hlen]; exact h1)]
+  exact forall₂_getElem h.hchunk l h1 (by rw [h.hlen]; exact h1)
+
+end massequiv
+
+/-! ### implicit damping: `mass_mx + diag(damping)·dt` -/
+section damped
+
+theorem dot_nil_right (a : List ℝ) : dot a [] = 0 := by
+  unfold dot; simp
+
+theorem dot_cons (x b : ℝ) (a y : List ℝ) : dot (x :: a) (b :: y) = x * b + dot a y := by
+  unfold dot; simp
+
+/-- bumping entry `i` of a row by `c` adds `c · y_i` to the dot product -/
+theorem dot_bump (c : ℝ) (i : Nat) : ∀ (row y : List ℝ) (k : Nat),
+    dot ((row.zip (List.range' k row.length)).map (fun xj => if xj.2 = i then xj.1 + c else xj.1)) y
+      = dot row y + (if k ≤ i ∧ i - k < row.length then c * y.getD (i - k) 0 else 0)
+  | [], y, k => by simp [dot]
+  | x :: row, [], k => by simp [dot_nil_right]
+  | x :: row, b :: y, k => by
+    simp only [List.length_cons, List.range'_succ, List.zip_cons_cons, List.map_cons, dot_cons,
+      dot_bump c i row y (k + 1)]
+    by_cases h1 : k = i
+    · subst h1
+      simp
+      ring
+    · by_cases h2 : k < i
+      · have e : i - k = (i - (k + 1)) + 1 := by omega
+        have c1 : (k + 1 ≤ i ∧ i - (k + 1) < row.length) ↔ (k ≤ i ∧ i - k < row.length + 1) := by omega
+        simp only [h1, if_false, e, List.getD_cons_succ]
+        by_cases h3 : k + 1 ≤ i ∧ i - (k + 1) < row.length
+        · have h3' : k ≤ i ∧ i - (k + 1) + 1 < row.length + 1 := by omega
+          rw [if_pos h3, if_pos h3']; ring
+        · have h3' : ¬ (k ≤ i ∧ i - (k + 1) + 1 < row.length + 1) := by omega
+          rw [if_neg h3, if_neg h3']; ring
+      · have h3 : ¬ (k + 1 ≤ i ∧ i - (k + 1) < row.length) := by omega
+        have h3' : ¬ (k ≤ i ∧ i - k < row.length + 1) := by omega
+        simp only [h1, if_false]
+        rw [if_neg h3, if_neg h3']; ring
+
+/-- `(mass_mx + diag(damping)·dt) · y = mass_mx · y + damping·dt·y` for a square matrix -/
+theorem matVec_damped (M : List (List ℝ)) (d y : List ℝ) (dt : ℝ) (n : Nat) (hM : M.length = n)
+    (hrow : ∀ r ∈ M, r.length = n) (hd : d.length = n) (hy : y.length = n) :
+    matVec (dampedMatrix M d dt) y
+      = List.zipWith (fun a b => 1 * a + 1 * b) (matVec M y)
+          (List.zipWith (fun c x => c * x) (d.map (· * dt)) y) := by
+  unfold matVec dampedMatrix
+  rw [List.map_map]
+  apply List.ext_getElem
+  · simp [hM, hd, hy]
+  · intro i h1 h2
+    have hi : i < n := by simpa [hM] using h1
+    have hiM : i < M.length := by rw [hM]; exact hi
+    simp only [List.getElem_map, List.getElem_zip, List.getElem_range, Function.comp,
+      List.getElem_zipWith]
+    have hr := hrow M[i] (List.getElem_mem hiM)
+    have := dot_bump (d.getD i 0 * dt) i M[i] y 0
+    rw [← List.range_eq_range'] at this
+    rw [this, if_pos (by omega)]
+    simp only [Nat.sub_zero]
+    rw [← getElem_eq_getD d 0 i (by omega), ← getElem_eq_getD y 0 i (by omega)]
+    ring
+
+/-- isotropic per-dof scalars of a flat per-dof array -/
+def IsoFlat : List LinkType → List ℝ → Prop
+  | [], _ => True
+  | t :: ts, v => IsoRow t (v.take t.qdWidth) ∧ IsoFlat ts (v.drop t.qdWidth)
+
+theorem pFlat_scale (g : Tf ℝ) : ∀ (ts : List LinkType) (cs xs : List ℝ), IsoFlat ts cs →
+    cs.length = xs.length →
+    List.zipWith (fun c x => c * x) cs (pFlat g ts xs) = pFlat g ts (List.zipWith (fun c x => c * x) cs xs)
+  | [], _, _, _, _ => rfl
+  | t :: ts, cs, xs, hiso, hlen => by
+    obtain ⟨h0, hrest⟩ := hiso
+    have hl : (cs.take t.qdWidth).length = (xs.take t.qdWidth).length := by simp [hlen]
+    simp only [pFlat, List.take_zipWith, List.drop_zipWith]
+    rw [← pRow_scale g t _ _ h0 hl, ← pFlat_scale g ts _ _ hrest (by simp [hlen])]
+    conv_lhs => rw [← List.take_append_drop t.qdWidth cs]
+    rw [List.zipWith_append (by rw [pRow_length]; exact hl)]
+
+theorem isoFlat_of_slices (F : DofP ℝ → ℝ) : ∀ (ts : List LinkType) (q qd : List ℝ) (ds : List (DofP ℝ)),
+    (∀ l ∈ linkSlices ts q qd ds, IsoRow l.typ (l.dofs.map F)) → IsoFlat ts (ds.map F)
+  | [], _, _, _, _ => trivial
+  | t :: ts, q, qd, ds, h => by
+    refine ⟨?_, ?_⟩
+    · have := h ⟨t, q.take t.qWidth, qd.take t.qdWidth, ds.take t.qdWidth⟩ (by simp [linkSlices])
+      simpa [List.map_take] using this
+    · rw [← List.map_drop]
+      exact isoFlat_of_slices F ts (q.drop t.qWidth) (qd.drop t.qdWidth) _
+        (fun l hl => h l (by simp [linkSlices, hl]))
+
+theorem isoRow_of_isoFree_damping (l : LinkIn ℝ) (h : IsoFree l) (dt : ℝ) :
+    IsoRow l.typ (l.dofs.map fun d => d.damping * dt) := by
+  intro hf
+  obtain ⟨d0, d1, d2, d3, d4, d5, hd, e1, e2, _, _⟩ := h hf
+  exact ⟨_, _, _, _, _, _, by rw [hd]; rfl, by show d0.damping * dt = d1.damping * dt; rw [e1],
+    by show d1.damping * dt = d2.damping * dt; rw [e2]⟩
+
+theorem isoRow_of_isoFree_armature (l : LinkIn ℝ) (h : IsoFree l) :
+    IsoRow l.typ (l.dofs.map (·.armature)) := by
+  intro hf
+  obtain ⟨d0, d1, d2, d3, d4, d5, hd, _, _, e1, e2⟩ := h hf
+  exact ⟨_, _, _, _, _, _, by rw [hd]; rfl, e1, e2⟩
+
+/-- split a flat per-dof vector into per-link chunks -/
+def chunkQd : List LinkType → List ℝ → List (List ℝ)
+  | [], _ => []
+  | t :: ts, v => v.take t.qdWidth :: chunkQd ts (v.drop t.qdWidth)
+
+theorem chunkQd_spec : ∀ (ts : List LinkType) (v : List ℝ), v.length = (ts.map LinkType.qdWidth).sum →
+    (chunkQd ts v).flatten = v ∧ ChunksQd ts (chunkQd ts v)
+  | [], v, h => by
+    simp only [List.map_nil, List.sum_nil, List.length_eq_zero_iff] at h
+    subst h
+    exact ⟨rfl, List.Forall₂.nil⟩
+  | t :: ts, v, h => by
+    simp only [List.map_cons, List.sum_cons] at h
+    obtain ⟨h1, h2⟩ := chunkQd_spec ts (v.drop t.qdWidth) (by rw [List.length_drop]; omega)
+    refine ⟨?_, List.Forall₂.cons (by rw [List.length_take]; omega) h2⟩
+    simp only [chunkQd, List.flatten_cons, h1, List.take_append_drop]
+
+end damped
+
+/-! ## 9. the damped mass matrix of `pipeline.step`, and the full step theorem -/
+section full
+
+theorem flatten_eq_dofIdx_map (cdof : List (List (Motion ℝ))) (N : List (List ℝ))
+    (hN : N.length = cdof.length) (hw : ∀ l, l < N.length → (N.getD l []).length = wAt cdof l) :
+    N.flatten = (dofIdx cdof.length (wAt cdof)).map fun lr => (N.getD lr.1 []).getD lr.2 0 := by
+  rw [dofIdx_map, ← hN]
+  exact congrArg List.flatten (nested_eq_range_map N (wAt cdof) hw)
+
+theorem massMatrix_shape (ps : List Int) (cinr : List (Inertia ℝ)) (cdof : List (List (Motion ℝ)))
+    (arm : List (List ℝ)) :
+    (massMatrix ps cinr cdof arm).length = (dofIdx cdof.length (wAt cdof)).length
+    ∧ ∀ r ∈ massMatrix ps cinr cdof arm, r.length = (dofIdx cdof.length (wAt cdof)).length := by
+  have hM : massMatrix ps cinr cdof arm
+      = (dofIdx cdof.length (wAt cdof)).map fun lr => (dofIdx cdof.length (wAt cdof)).map fun as =>
+          massEntry ps (crb ps cinr) cdof arm lr.1 lr.2 as.1 as.2 := rfl
+  rw [hM]
+  refine ⟨by simp, ?_⟩
+  intro r hr
+  obtain ⟨lr, _, rfl⟩ := List.mem_map.mp hr
+  simp
+
+variable (g : Tf ℝ) (hg : g.rot.IsUnit) (s : Sys ℝ) (q qd : List ℝ) (h : StepOK g s q qd)
+  (hsymI : ∀ lk ∈ s.links, SymmI lk.inertia)
+include hg h hsymI
+
+/-- the armature rows `pipeline.init` slices are the same in the two scenes -/
+theorem arm_eq :
+    (nested (C05L.gSys g s) (xqFlat g s.types q) (pFlat g s.types qd)).map (fun l => l.dofs.map (·.armature))
+      = (nested s q qd).map (fun l => l.dofs.map (·.armature)) := by
+  show (linkSlices s.types (xqFlat g s.types q) (pFlat g s.types qd) s.dofs).map _
+    = (linkSlices s.types q qd s.dofs).map _
+  rw [slices_xform g hg s q qd h, List.map_map]
+  apply List.map_congr_left
+  intro l _
+  simp only [Function.comp, xformIn_dofs]
+
+theorem massOK :
+    MassOK g s.types (dynInit s q qd).com.cinr
+      (dynInit (C05L.gSys g s) (xqFlat g s.types q) (pFlat g s.types qd)).com.cinr
+      (dynInit s q qd).com.cdof
+      (dynInit (C05L.gSys g s) (xqFlat g s.types q) (pFlat g s.types qd)).com.cdof
+      ((nested s q qd).map (fun l => l.dofs.map (·.armature))) := by
+  have hrel := dynInit_com_equiv g hg s q qd h
+  have hf := slices_full g hg s q qd h
+  refine ⟨hrel.cinr, ?_, ?_, hrel.lcdof, hrel.lcdof', hrel.cdof, cdof_chunks g hg s q qd h, ?_⟩
+  · intro I hI
+    obtain ⟨xi, c, lk, hlk, rfl⟩ := transformCom_cinr_mem s _ q qd I hI
+    exact cinrLink_symm xi c lk.inertia (hsymI lk hlk)
+  · intro I hI
+    obtain ⟨xi, c, lk, hlk, rfl⟩ := transformCom_cinr_mem (C05L.gSys g s) _ _ _ I hI
+    exact cinrLink_symm xi c lk.inertia (hsymI lk hlk)
+  · show List.Forall₂ _ s.types ((linkSlices s.types q qd s.dofs).map _)
+    apply forall₂_of_getElem (by rw [List.length_map, h.ok.insLen])
+    intro i h1 h2
+    have hii : i < (linkSlices s.types q qd s.dofs).length := by simpa using h2
+    have hrow := forall₂_getElem hf i h1 hii
+    simp only [List.getElem_map, List.length_map]
+    refine ⟨hrow.2.2.2, ?_⟩
+    rw [← hrow.1]
+    exact isoRow_of_isoFree_armature _ (h.iso _ (List.getElem_mem hii))
+
+/-- **the damped mass matrix is equivariant**: `(M' + D dt) (P y) = P ((M + D dt) y)` — the mass matrix of
+the transformed scene is `P M Pᵀ` with `P = pFlat g` orthogonal -/
+theorem dampedMass_equiv (y : List ℝ) (hy : y.length = s.nv) :
+    matVec (dampedMatrix (dynInit (C05L.gSys g s) (xqFlat g s.types q) (pFlat g s.types qd)).massMx
+        (s.dofs.map (·.damping)) s.dt) (pFlat g s.types y)
+      = pFlat g s.types (matVec (dampedMatrix (dynInit s q qd).massMx (s.dofs.map (·.damping)) s.dt) y) := by
+  have hmk := massOK g hg s q qd h hsymI
+  obtain ⟨hflat, hN⟩ := chunkQd_spec s.types y hy
+  set N := chunkQd s.types y with hNdef
+  have hNl : N.length = s.types.length := (List.Forall₂.length_eq hN).symm
+  have hM : (dynInit s q qd).massMx = massMatrix s.parents (dynInit s q qd).com.cinr
+      (dynInit s q qd).com.cdof ((nested s q qd).map (fun l => l.dofs.map (·.armature))) := rfl
+  have hM' : (dynInit (C05L.gSys g s) (xqFlat g s.types q) (pFlat g s.types qd)).massMx
+      = massMatrix s.parents (dynInit (C05L.gSys g s) (xqFlat g s.types q) (pFlat g s.types qd)).com.cinr
+          (dynInit (C05L.gSys g s) (xqFlat g s.types q) (pFlat g s.types qd)).com.cdof
+          ((nested s q qd).map (fun l => l.dofs.map (·.armature))) := by
+    rw [← arm_eq g hg s q qd h hsymI]; rfl
+  have hME := massMatrix_equiv g hg s.types s.parents _ _ _ _ _ N hmk hN
+  rw [hflat] at hME
+  -- shapes
+  have hw : ∀ l, l < N.length → (N.getD l []).length = wAt (dynInit s q qd).com.cdof l := by
+    intro l hl
+    obtain ⟨h1, h2, e, _, hn⟩ := N_row g hg s.types _ _ _ _ _ N hmk hN l (by rw [← hNl]; exact hl)
+    rw [hn, e]; unfold wAt; rw [← getElem_eq_getD _ [] l h2]
+  have hidx : (dofIdx (dynInit s q qd).com.cdof.length (wAt (dynInit s q qd).com.cdof)).length = s.nv := by
+    have := congrArg List.length (flatten_eq_dofIdx_map (dynInit s q qd).com.cdof N (by rw [hNl, hmk.hlen]) hw)
+    rw [hflat, List.length_map] at this
+    rw [← this, hy]
+  have hidx' : (dofIdx (dynInit (C05L.gSys g s) (xqFlat g s.types q) (pFlat g s.types qd)).com.cdof.length
+      (wAt (dynInit (C05L.gSys g s) (xqFlat g s.types q) (pFlat g s.types qd)).com.cdof)).length = s.nv := by
+    have hwe : wAt (dynInit (C05L.gSys g s) (xqFlat g s.types q) (pFlat g s.types qd)).com.cdof
+        = wAt (dynInit s q qd).com.cdof := funext fun l => wAt_eq g hg s.types _ _ _ _ _ N hmk hN l
+    rw [← hidx, hmk.hlen', hmk.hlen, hwe]
+  have hsh := massMatrix_shape s.parents (dynInit s q qd).com.cinr (dynInit s q qd).com.cdof
+    ((nested s q qd).map (fun l => l.dofs.map (·.armature)))
+  have hsh' := massMatrix_shape s.parents
+    (dynInit (C05L.gSys g s) (xqFlat g s.types q) (pFlat g s.types qd)).com.cinr
+    (dynInit (C05L.gSys g s) (xqFlat g s.types q) (pFlat g s.types qd)).com.cdof
+    ((nested s q qd).map (fun l => l.dofs.map (·.armature)))
+  have hdl : (s.dofs.map (·.damping)).length = s.nv := by rw [List.length_map, h.full.hds]
+  have hiso : IsoFlat s.types ((s.dofs.map (·.damping)).map (· * s.dt)) := by
+    have e : (s.dofs.map (·.damping)).map (· * s.dt) = s.dofs.map (fun d => d.damping * s.dt) := by
+      rw [List.map_map]; rfl
+    rw [e]
+    exact isoFlat_of_slices (fun d => d.damping * s.dt) s.types q qd s.dofs
+      (fun l hl => isoRow_of_isoFree_damping l (h.iso l hl) s.dt)
+  rw [hM, hM',
+    matVec_damped _ _ _ s.dt s.nv (hsh'.1.trans hidx') (fun r hr => (hsh'.2 r hr).trans hidx') hdl
+      (by rw [pFlat_length, hy]),
+    matVec_damped _ _ _ s.dt s.nv (hsh.1.trans hidx) (fun r hr => (hsh.2 r hr).trans hidx) hdl hy,
+    hME, pFlat_scale g s.types _ _ hiso (by rw [List.length_map, hdl, hy])]
+  refine (pFlat_lin g 1 1 s.types _ _ ?_).symm
+  simp only [matVec, List.length_map, List.length_zipWith, hsh.1, hidx, hy, h.full.hds, min_self]
+
+/-- **C05, generalized pipeline: one constraint-free `pipeline.step` commutes with the rigid transform
+`g`**, for an exact linear solve with a unique solution -/
+theorem step_equiv_full (solve : List (List ℝ) → List ℝ → List ℝ) (act qfc : List ℝ)
+    (hact : ActAgreeG s.acts q qd (xqFlat g s.types q) (pFlat g s.types qd))
+    (htau : pFlat g s.types (toTau s.nv s.acts act q qd) = toTau s.nv s.acts act q qd)
+    (hqfc : qfc.length = s.nv)
+    (hex : matVec (dampedMatrix (dynInit s q qd).massMx (s.dofs.map (·.damping)) s.dt)
+        (solve (dampedMatrix (dynInit s q qd).massMx (s.dofs.map (·.damping)) s.dt)
+          (List.zipWith (· + ·) (qfSmooth s (dynInit s q qd) q qd act) qfc))
+      = List.zipWith (· + ·) (qfSmooth s (dynInit s q qd) q qd act) qfc)
+    (hlen : (solve (dampedMatrix (dynInit s q qd).massMx (s.dofs.map (·.damping)) s.dt)
+        (List.zipWith (· + ·) (qfSmooth s (dynInit s q qd) q qd act) qfc)).length = s.nv)
+    (huniq : ∀ y : List ℝ, y.length = s.nv →
+      matVec (dampedMatrix (dynInit (C05L.gSys g s) (xqFlat g s.types q) (pFlat g s.types qd)).massMx
+          (s.dofs.map (·.damping)) s.dt) y
+        = pFlat g s.types (List.zipWith (· + ·) (qfSmooth s (dynInit s q qd) q qd act) qfc) →
+      solve (dampedMatrix (dynInit (C05L.gSys g s) (xqFlat g s.types q) (pFlat g s.types qd)).massMx
+          (s.dofs.map (·.damping)) s.dt)
+        (pFlat g s.types (List.zipWith (· + ·) (qfSmooth s (dynInit s q qd) q qd act) qfc)) = y) :
+    Gd.step solve (C05L.gSys g s) (dynInit (C05L.gSys g s) (xqFlat g s.types q) (pFlat g s.types qd))
+        (xqFlat g s.types q) (pFlat g s.types qd) act (pFlat g s.types qfc)
+      = ((xqFlat g s.types (Gd.step solve s (dynInit s q qd) q qd act qfc).1.1,
+          pFlat g s.types (Gd.step solve s (dynInit s q qd) q qd act qfc).1.2.1,
+          pFlat g s.types (Gd.step solve s (dynInit s q qd) q qd act qfc).1.2.2),
+         dynInit (C05L.gSys g s) (xqFlat g s.types (Gd.step solve s (dynInit s q qd) q qd act qfc).1.1)
+          (pFlat g s.types (Gd.step solve s (dynInit s q qd) q qd act qfc).1.2.1)) :=
+  step_equiv_core g hg solve s q qd act qfc h hact htau hqfc hlen
+    (solve_equiv_of_exact g s.types solve _ _ _ s.nv
+      (fun y hy => dampedMass_equiv g hg s q qd h hsymI y hy) hex hlen huniq)
+
+end full
+
 end Brax.C05G
